@@ -30,14 +30,14 @@ m = {
     'setup_cmd': 'true',
     'hooks': {
         'guard': 'cfg(kani)',
-        'enable': 'Verus units read /repo/src text directly (no hook). Kani in-crate harnesses: `cargo kani` sets cfg(kani), which compiles `mod verif_kani` in src/lib.rs (includes $CALLOOP_VERIF_DIR/kx/incrate/harness.rs) and `mod verif_kani` in src/sys.rs (includes $CALLOOP_VERIF_DIR/kx/incrate/sys_harness.rs, to reach the private cvt_interest/cvt_mode); nothing else in /repo is guarded',
+        'enable': 'Verus units read /repo/src text directly (no hook). Kani in-crate harnesses: `cargo kani` sets cfg(kani), which compiles `mod verif_kani` in src/lib.rs (includes $CALLOOP_VERIF_DIR/kx/incrate/harness.rs) and `mod verif_kani` in src/sys.rs (includes $CALLOOP_VERIF_DIR/kx/incrate/sys_harness.rs, to reach the private cvt_interest/cvt_mode) and `mod verif_kani` in src/loop_logic.rs (includes $CALLOOP_VERIF_DIR/kx/incrate/loop_harness.rs, to reach the private fields of EventIterator); nothing else in /repo is guarded',
         'baseline_off_cmd': 'cd /repo && cargo test --workspace --no-fail-fast --offline',
         'source_commits': propinfo.HOOK_COMMITS if hasattr(propinfo, 'HOOK_COMMITS') else [],
         'add_only': True,
     },
     'engines': [
         {'name': 'vx', 'path': 'vx/', 'serves_properties': propinfo.CLAIMED, 'kind_free_text': 'Verus on real functions extracted mechanically on every run (extract.py + gate.py), contracts in vx/mods/*.rs'},
-        {'name': 'kx', 'path': 'kx/', 'serves_properties': [], 'kind_free_text': 'Kani leaf harnesses on the real crate'},
+        {'name': 'kx', 'path': 'kx/', 'serves_properties': ['C01', 'C02', 'C06', 'C09', 'C14', 'C15', 'C16', 'C18', 'C20'], 'kind_free_text': 'Kani harnesses on the real crate: loop-free full-domain leaf harnesses (complete) and bounded twins of EventIterator::next and TransientSource (bounded, not counted as proved), native replay of counterexamples (cargo kani playback)'},
     ],
     'checks': checks,
     'not_applicable': na,
